@@ -290,7 +290,7 @@ def describe(c):
 
 def judge_and_report(res, cases, note):
     recs, skipped = pack(cases)
-    j = U.judge_total("Judge_C16", recs, per_shard_min=40, timeout=1500)
+    j = judge("Judge_C16", recs, per_shard_min=40, timeout=1500)
     res.add_judge("Judge_C16", j, note)
     byid = {c["_id"]: c for c in cases if "_id" in c}
     for cid, clause in j["rejected"]:
@@ -341,6 +341,8 @@ def run(tier, seed):
     res.coverage["delete_counterexample_from_tlc"] = cx
 
     # (2) cases -------------------------------------------------------------------------------
+    import time
+    t_mc = time.time()
     cases = []
     cases += level_family(3 if quick else 4, rng, sample_last=None if quick else 6000)
     n_levels = len(cases)
@@ -365,9 +367,11 @@ def run(tier, seed):
         U.observe_eval(c)
     for d in dels:
         observe_del(d)
+    t_obs = time.time()
     allc = cases + dels + [d["red"] for d in dels] + [d["base"] for d in dels if d["base"]["tag"] in ("delete-levels", "tlc-counterexample")]
     skipped, j = judge_and_report(res, allc, "level families %d, recall-tie family %d, random label pairs %d, delete relations %d (+ their reduced runs)" % (n_levels, len(cases) - n_levels - n_rand, n_rand, len(dels)))
 
+    res.coverage["phase_s"] = dict(model_checking=round(t_mc - res.t0, 1), run_real_code=round(t_obs - t_mc, 1), judge=round(time.time() - t_obs, 1))
     # (3) coverage bookkeeping (measured) -------------------------------------------------------
     ev = [c for c in allc if c["kind"] == "eval" and not c.get("skip")]
     res.clause("evaluate_raised", sum(1 for c in ev if c["raised"]))
